@@ -5,15 +5,17 @@ CONSTANTS
   Dense = TRUE
   KeepStatus = FALSE
   RecheckAtApply = TRUE
-  RecheckElect = TRUE
+  RecheckElect = FALSE
   RecheckISR = TRUE
   KeepOnFail = FALSE
   CountAll = FALSE
   InitISRs = {{"r1"}, {"r1", "r2"}, {"r1", "r2", "r3"}, {"r1", "r2", "r3", "r4"}}
   L0 = "r1"
-  PairSels = {"cur", "sl", "prev", "next", "pep", "first", "own"}
-  MaxOps = 16
-  Faults = TRUE
+  PairSels = {"cur", "first"}
+  MaxOps = 6
+  Faults = FALSE
   EffectiveOnly = FALSE
-  MaxPend = 0
+  MaxPend = 2
+INVARIANTS NoTaint
+VIEW MCView
 CHECK_DEADLOCK FALSE
